@@ -25,7 +25,7 @@ func init() {
 			"x 14 probe values; oracle = executable model of spec rules U0-U2, D0-D2, M0-M1. Non-trivial = expressions with >=2 surviving disjuncts or a default.",
 		Assumptions: []string{"model in /verif/src/model/disj.go; nested marks (M2/M3) are excluded by the property and not generated",
 			"disjunct equality in the model = equal evaluated normal form (pinned atom / denotation over the universe / merged struct)"},
-		Run:         run, Replay: replay,
+		Run: run, Replay: replay,
 		RequireOutcomes: []string{"resolved-default", "resolved-unique", "ambiguous", "bottom", "nonconcrete"},
 		BudgetQuick:     150, BudgetThorough: 1500,
 	})
@@ -52,7 +52,7 @@ var universe = model.DisjUniverse()
 
 var structProbes = []map[string]string{{"a": "1"}, {"b": "1"}, {"a": "1", "b": "1"}, {"a": "2"}, {}}
 
-func leafE(l model.Leaf) *model.Expr { return &model.Expr{Op: "leaf", Leaf: l} }
+func leafE(l model.Leaf) *model.Expr   { return &model.Expr{Op: "leaf", Leaf: l} }
 func and(a, b *model.Expr) *model.Expr { return &model.Expr{Op: "&", Args: []*model.Expr{a, b}} }
 
 // disjs returns every disjunction of the given width over terms, with every
@@ -281,7 +281,55 @@ func implKey(v cue.Value) (key string, concrete bool) {
 // collapsedTag marks expressions containing a marked disjunction all of whose
 // disjuncts are textually equal (`*x | x`), used to key a known finding.
 func collapsedTag(e *model.Expr) string {
-	return collapsedTag1(e) + nestedRightTag(e)
+	return collapsedTag1(e) + nestedRightTag(e) + cancelledTag(e)
+}
+
+// cancelledTag marks expressions in which the elimination sentence of the
+// spec ("if all the marked disjuncts of a marked disjunction are eliminated,
+// the remaining unmarked disjuncts are considered as if they originated from
+// an unmarked disjunction") has to be applied to the RESULT of an inner
+// conjunction: either the inner conjunction's own defaults exclude each other,
+// or all of its surviving marked disjuncts are eliminated by the outer operand.
+func cancelledTag(e *model.Expr) string {
+	found := false
+	var walk func(e *model.Expr)
+	walk = func(e *model.Expr) {
+		if e.Op == "&" {
+			for i, x := range e.Args {
+				if x.Op != "&" {
+					continue
+				}
+				a, b := model.Eval(x.Args[0], universe), model.Eval(x.Args[1], universe)
+				in := model.Eval(x, universe)
+				if a.D != nil && b.D != nil && len(in.V) > 0 && len(in.D) == 0 {
+					found = true
+				}
+				if len(in.D) > 0 {
+					other := model.Eval(e.Args[1-i], universe)
+					survives := false
+					for _, d := range in.D {
+						for _, t := range other.V {
+							c := append(append(model.Conj{}, d...), t...)
+							if _, ok, _ := c.Norm(universe); ok {
+								survives = true
+							}
+						}
+					}
+					if !survives {
+						found = true
+					}
+				}
+			}
+		}
+		for _, a := range e.Args {
+			walk(a)
+		}
+	}
+	walk(e)
+	if found {
+		return " [default-elimination-across-conjunctions]"
+	}
+	return ""
 }
 
 // nestedRightTag marks expressions in which the right operand of an & is an
